@@ -87,6 +87,10 @@ type Regex struct {
 	engine  *meta.Engine
 	pattern string
 	longest bool // if true, prefer leftmost-longest match (POSIX semantics)
+
+	// How the value was compiled, so that Copy can compile the same thing again.
+	posix  bool         // CompilePOSIX: POSIX ERE syntax
+	config *meta.Config // CompileWithConfig: the configuration used (nil = default)
 }
 
 // Regexp is an alias for Regex to provide drop-in compatibility with stdlib regexp.
@@ -169,6 +173,7 @@ func CompilePOSIX(pattern string) (*Regex, error) {
 	re := &Regex{
 		engine:  engine,
 		pattern: pattern,
+		posix:   true,
 	}
 	re.Longest()
 	return re, nil
@@ -223,9 +228,11 @@ func CompileWithConfig(pattern string, config meta.Config) (*Regex, error) {
 		return nil, err
 	}
 
+	cfg := config
 	return &Regex{
 		engine:  engine,
 		pattern: pattern,
+		config:  &cfg,
 	}, nil
 }
 
@@ -1661,12 +1668,24 @@ func (r *Regex) Copy() *Regex {
 	// Create a new Regex with the same pattern
 	// Note: This re-compiles the pattern, which is slightly slower than
 	// sharing the internal engine, but ensures complete independence.
-	re, err := Compile(r.pattern)
+	// It is compiled the way the original was: a CompilePOSIX expression with
+	// POSIX syntax (where ^ and $ are line anchors), a CompileWithConfig
+	// expression with its configuration.
+	var re *Regex
+	var err error
+	switch {
+	case r.posix:
+		re, err = CompilePOSIX(r.pattern)
+	case r.config != nil:
+		re, err = CompileWithConfig(r.pattern, *r.config)
+	default:
+		re, err = Compile(r.pattern)
+	}
 	if err != nil {
 		// This should never happen since the pattern was already compiled
 		return nil
 	}
-	if r.longest {
+	if r.longest && !re.longest {
 		re.Longest()
 	}
 	return re
